@@ -957,10 +957,70 @@ impl Check for ClientCheck {
                         },
                     }])
                 }));
+                // an abort that arrives on a repeated command after a transport fault
+                // (e.g. "already reversed" B4 for a reversal whose completion got lost)
+                {
+                    let wl: Vec<Vec<OpSpec>> = vec![
+                        vec![
+                            OpSpec::Begin { token: "A".into(), res: ResOutcome::success() },
+                            OpSpec::Cancel { token: "A".into(), rev: RevOutcome::success(), cleanup: CleanupSpec::plain() },
+                        ],
+                        vec![
+                            OpSpec::Begin { token: "A".into(), res: ResOutcome::success() },
+                            OpSpec::Commit { token: "A".into(), amount: 100, rev: RevOutcome::success(), cleanup: CleanupSpec::plain() },
+                        ],
+                        vec![OpSpec::Begin {
+                            token: "A".into(),
+                            res: ResOutcome { pre: 1, status: StatusMode::WithReceipt, prints: 0, end: EndSpec::Abort(0x6f) },
+                        }],
+                        // the terminal's decision for the repeated command is an abort
+                        vec![
+                            OpSpec::Begin { token: "A".into(), res: ResOutcome::success() },
+                            OpSpec::Cancel { token: "A".into(), rev: RevOutcome { pre: 0, status: false, prints: 0, end: EndSpec::Abort(0xb4) }, cleanup: CleanupSpec::plain() },
+                        ],
+                        vec![
+                            OpSpec::Begin { token: "A".into(), res: ResOutcome::success() },
+                            OpSpec::Commit { token: "A".into(), amount: 100, rev: RevOutcome { pre: 1, status: true, prints: 0, end: EndSpec::Abort(0xb4) }, cleanup: CleanupSpec::plain() },
+                        ],
+                        vec![
+                            OpSpec::Begin { token: "A".into(), res: ResOutcome::success() },
+                            OpSpec::Cancel { token: "A".into(), rev: RevOutcome { pre: 1, status: false, prints: 1, end: EndSpec::Abort(0xa0) }, cleanup: CleanupSpec::plain() },
+                        ],
+                    ];
+                    let kinds = [FaultKind::EpipeAfter, FaultKind::Eof, FaultKind::Reset, FaultKind::Nack(0x9c), FaultKind::Silence, FaultKind::EofMid(2)];
+                    let mut cases: Vec<(usize, u16, FaultKind)> = vec![];
+                    for (wi, ops) in wl.iter().enumerate() {
+                        let pts = crate::c09::dry_points(ops, 2);
+                        for pnt in 13..=pts {
+                            for k in kinds {
+                                cases.push((wi, pnt, k));
+                            }
+                        }
+                    }
+                    let n = cases.len() as u64;
+                    fams.push(Family::new("abort_on_repeat_after_fault_every_point", n, true, move |i, _| {
+                        let (wi, point, kind) = cases[i as usize];
+                        let mut p = ClientPlan::plain(wl[wi].clone());
+                        p.cfg.max_tx = 2;
+                        p.faults = vec![FaultSpec { conn: 0, point, kind }];
+                        p
+                    }));
+                }
                 let n = match tier {
                     Tier::Quick => 30_000,
                     Tier::Thorough => 800_000,
                 };
+                fams.push(Family::new("random_walks_with_aborts_under_faults", n / 3, false, |_, rng| {
+                    let mut p = faulty_walk(rng, &TOKENS3, 8);
+                    for op in p.ops.iter_mut() {
+                        match op {
+                            OpSpec::Begin { res, .. } if rng.pct(30) => res.end = EndSpec::Abort(rng.next_u64() as u8),
+                            OpSpec::Commit { rev, .. } | OpSpec::Cancel { rev, .. } if rng.pct(30) => rev.end = EndSpec::Abort(rng.next_u64() as u8),
+                            _ => {}
+                        }
+                    }
+                    p
+                }));
                 fams.push(Family::new("random_walks_with_aborts", n, false, |_, rng| {
                     let mut p = random_walk(rng, &TOKENS3, 10);
                     // raise the abort rate
